@@ -16,9 +16,9 @@ THEOREMS = [
 ]
 HARNESSES = [
     dict(name="mx", pkg="pkg/cluster", files=["harness/cluster/zz_verif_c18_test.go"],
-         run="TestVerifC18Mutex", groups=["mx"], timeout=1500, share=0.125),
+         run="TestVerifC18Mutex", groups=["mx"], timeout=1500, share=0.125, race=True),
     dict(name="api", pkg="pkg/api", files=["harness/api/zz_verif_c18_test.go"],
-         run="TestVerifC18Api", groups=["api"], timeout=1500, share=0.875),
+         run="TestVerifC18Api", groups=["api"], timeout=1500, share=0.875, race=True),
 ]
 GROUPS = {"mx": "(check_mx pinned)", "api": "(check_api pinned)"}
 EXPLAIN = {"mx": "(explain_mx pinned)", "api": "(explain_api pinned)"}
